@@ -292,6 +292,17 @@ Theorem C15_compute_cov_spec :
 Proof. exact compute_cov_spec. Qed.
 Print Assumptions C15_compute_cov_spec.
 
+(* the precision the log-density and its gradient use (R^T R of whatever factor the Gaussian stores or derives -- Cholesky
+   branch, or the eigen-decomposition branch above MIN_DIM_SPARSE) as modelled, and the covariance compute_cov() caches,
+   are inverse to each other for every parameterisation; the harness compares sqrtprec^T sqrtprec of the implementation with
+   precision_model (check_precision) over generic, block-diagonal, permuted-block and arrow matrices in both storage regimes *)
+Theorem C15_precision_times_cov :
+  forall (p : gparam) (dim : nat) (c : covform) (P C : list (list Qc)),
+  precision_model p dim c = Some P -> compute_cov_model p dim c = Some C ->
+  (qmatmul (length P) P C = qident (length P) \/ qmatmul (length C) P C = qident (length C)).
+Proof. exact precision_times_cov. Qed.
+Print Assumptions C15_precision_times_cov.
+
 (* the whole cascade of sample_posterior (joint = target still a JointDistribution, s = hasattr(prior,
    "sqrtprecTimesMean"), q = hasattr(likelihood.distribution, "sqrtprec")): Gibbs iff joint; the direct route iff not joint
    and the closed-form condition; what each later choice implies about the posterior's structure *)
